@@ -205,10 +205,63 @@ pub fn run(tier: &str, seed: u64, out: &mut Out) {
                 out.stat(&format!("check_type:{}", match &r { Outcome::Ok(b) => if *b {"true"} else {"false"}, Outcome::Err => "Err", Outcome::Panic => "Panic" }));
                 out.case("check_type", format!("check_type {} {}", bvalue(&zv), ty(&t2)), res(&r, |b| b.to_string()), json!({"value_of":format!("{}",t),"against":format!("{}",t2)}), true);
                 if t == t2 && r != Outcome::Ok(true) { out.violation("check_type-own-zero", json!({"type":format!("{}",t)}), "zero_of_type(t) does not check against t".into()); } else { out.oracle_ok(); }
+                // a value is accepted for a type exactly when its layout matches: perturbed layouts
+                // (a sub-value or a byte dropped, added, or a nested one perturbed) against an
+                // independent reference of the layout rule; TypedValue::new must agree
+                for _ in 0..3 {
+                    let pv = perturb_layout(&zv, &t, &mut rng);
+                    let expect = layout_matches(&pv, &t);
+                    let (pv2, t3) = (pv.clone(), t.clone());
+                    let r = observe(move || pv2.check_type(t3));
+                    out.stat(&format!("check_type_perturbed:{}", match &r { Outcome::Ok(b) => if *b {"true"} else {"false"}, Outcome::Err => "Err", Outcome::Panic => "Panic" }));
+                    out.case("check_type", format!("check_type {} {}", bvalue(&pv), ty(&t)), res(&r, |b| b.to_string()), json!({"perturbed_value_of":format!("{}",t)}), true);
+                    let (pv3, t4) = (pv.clone(), t.clone());
+                    let tvn = observe(move || ciphercore_base::typed_value::TypedValue::new(t4, pv3).map(|_| ()));
+                    if r != Outcome::Ok(expect) || matches!(tvn, Outcome::Ok(())) != expect {
+                        out.violation("check_type-layout-rule", json!({"type":format!("{}",t),"value":bvalue(&pv)}), format!("layout matches = {}, check_type = {}, TypedValue::new ok = {}", expect, match &r { Outcome::Ok(b) => b.to_string(), _ => r.tag().to_string() }, matches!(tvn, Outcome::Ok(()))));
+                    } else { out.oracle_ok(); }
+                }
             }
         }
     }
     run_json(tier, seed, out);
+}
+
+/// independent statement of the layout rule: a leaf holds exactly ceil(bits/8) bytes, a container
+/// exactly one well-laid-out sub-value per component of its type
+fn layout_matches(v: &Value, t: &Type) -> bool {
+    let kids = |v: &Value| v.to_vector().ok();
+    match t {
+        Type::Scalar(_) | Type::Array(_, _) => {
+            let bits = get_size_in_bits(t.clone()).unwrap_or(u64::MAX);
+            v.access_bytes(|b| Ok(b.len() as u64 == (bits + 7) / 8)).unwrap_or(false)
+        }
+        Type::Vector(n, et) => kids(v).map(|c| c.len() as u64 == *n && c.iter().all(|x| layout_matches(x, et))).unwrap_or(false),
+        Type::Tuple(ts) => kids(v).map(|c| c.len() == ts.len() && c.iter().zip(ts.iter()).all(|(x, ct)| layout_matches(x, ct))).unwrap_or(false),
+        Type::NamedTuple(ts) => kids(v).map(|c| c.len() == ts.len() && c.iter().zip(ts.iter()).all(|(x, (_, ct))| layout_matches(x, ct))).unwrap_or(false),
+    }
+}
+
+fn perturb_layout(v: &Value, t: &Type, rng: &mut Rng) -> Value {
+    let child_types: Vec<Type> = match t {
+        Type::Vector(n, et) => (0..*n).map(|_| (**et).clone()).collect(),
+        Type::Tuple(ts) => ts.iter().map(|x| (**x).clone()).collect(),
+        Type::NamedTuple(ts) => ts.iter().map(|(_, x)| (**x).clone()).collect(),
+        _ => {
+            let mut b = v.access_bytes(|b| Ok(b.to_vec())).unwrap_or_default();
+            match rng.below(3) { 0 => { b.pop(); } 1 => b.push(0), _ => {} }
+            return Value::from_bytes(b);
+        }
+    };
+    let mut ch = v.to_vector().unwrap_or_default();
+    match rng.below(6) {
+        0 => { ch.pop(); }
+        1 => { ch.clear(); }
+        2 => { if let Some(x) = ch.last().cloned() { ch.push(x); } else { ch.push(Value::from_bytes(vec![0])); } }
+        3 | 4 if !ch.is_empty() => { let i = rng.below(ch.len() as u64) as usize; ch[i] = perturb_layout(&ch[i].clone(), &child_types[i], rng); }
+        _ => {}
+    }
+    Value::from_vector(ch)
 }
 
 // =====================================================================================================
